@@ -84,6 +84,11 @@ def run(tier, seed):
         # ---- message algebra
         n = 6000 if tier == "quick" else 300000
         cases = [msggen.case(rng) for _ in range(n)]
+        # byte blocks that take "the rest" at and beyond every 16-bit size: what was written is what is read back
+        for nb in (255, 256, 32767, 32768, 65534, 65535, 65536, 65537, 70000):
+            blk = [(i * 131 + (i >> 8)) % 256 for i in range(nb)]
+            cases.append({"shape": {"t": "comp", "fields": [{"name": "f1", "s": {"t": "u16", "e": "le"}, "opt": {"k": "none"}}, {"name": "f2", "s": {"t": "rest"}, "opt": {"k": "none"}}]}, "value": [513, blk], "greedy": True})
+            cases.append({"shape": {"t": "trame", "items": [{"t": "u8"}, {"t": "rest"}]}, "value": [9, blk], "greedy": True})
         cin, cexp = os.path.join(wd, "msg.cases.ndjson"), os.path.join(wd, "msg.exp.ndjson")
         with open(cin, "w") as f:
             for c in cases:
